@@ -5,6 +5,11 @@ package multiplex
 import (
 	"bytes"
 	"fmt"
+	"io"
+	"net"
+	rtime "time"
+
+	"github.com/cbeuw/Cloak/internal/vrt/time"
 	"strconv"
 	"strings"
 
@@ -243,6 +248,59 @@ func init() {
 		return rep
 	}})
 
+	// the limit a Session is *configured* with bounds every message it puts on the wire: Write and
+	// ReadFrom, every method, padded first frames with the largest padding, full-size payloads
+	vx.Register(&vx.Scenario{Name: "codec.sessionlimit", Prop: "C04", Run: func(c *vx.Ctx) *vx.Report {
+		rep := &vx.Report{Job: c.Job, Engine: "enum", Outcomes: map[string]int64{}, Exhaustive: true}
+		for _, limit := range []int{16401, 16640, 4096, 600} {
+			for _, m := range []byte{0, 1, 2, 3} {
+				for _, viaReadFrom := range []bool{false, true} {
+					for _, pad := range []int{0, 1000} { // 1000 = "largest the implementation allows"
+						o, _ := MakeObfuscator(m, rigKey)
+						sesh := MakeSession(1, SessionConfig{Obfuscator: o, MsgOnWireSizeLimit: limit, InactivityTimeout: 1000 * time.Hour})
+						rec := &recConn{}
+						sesh.AddConnection(rec)
+						vrt.PlainRandInt = func(n int) int {
+							if pad >= n {
+								return n - 1
+							}
+							return pad
+						}
+						st, err := sesh.OpenStream()
+						data := make([]byte, 3*limit+17)
+						if err == nil {
+							if viaReadFrom {
+								st.ReadFrom(&sliceReader{b: data})
+							} else {
+								_, err = st.Write(data)
+							}
+						}
+						vrt.PlainRandInt = nil
+						rep.Executions++
+						rep.Transitions += int64(len(rec.writes))
+						max := 0
+						for _, w := range rec.writes {
+							if len(w) > max {
+								max = len(w)
+							}
+						}
+						want := limit
+						if err != nil || len(rec.writes) < 3 || max > want {
+							rep.Violations = append(rep.Violations, vx.Violation{Clause: "size-limit", Sig: vx.Sig(c.Job, "size-limit"),
+								Msg: fmt.Sprintf("session configured with MsgOnWireSizeLimit=%d, method %d, readFrom=%v, padding %d: %d messages, largest %d bytes (err %v)", limit, m, viaReadFrom, pad, len(rec.writes), max, err)})
+							rep.Exhaustive = false
+						}
+						rep.Outcomes[fmt.Sprintf("limit=%d largest=%d", limit, max)]++
+						sesh.Close()
+					}
+				}
+			}
+		}
+		rep.States = rep.Executions
+		rep.Samples = append(rep.Samples, map[string]any{"limits": []int{16401, 16640, 4096, 600}})
+		return rep
+	}})
+
 	vx.RegisterJobs("C04", func(tier string) []vx.Job {
 		var jobs []vx.Job
 		methods := []string{"plain", "aes-256-gcm", "aes-128-gcm", "chacha20-poly1305"}
@@ -262,7 +320,52 @@ func init() {
 				jobs = append(jobs, vx.Job{Scenario: "codec.roundtrip", Params: vx.P("method", m, "lens", "1,2,255,256,max", "slice", "full", "allpads", "1"), Weight: 9})
 			}
 		}
-		jobs = append(jobs, vx.Job{Scenario: "codec.limits", Weight: 1})
+		jobs = append(jobs, vx.Job{Scenario: "codec.limits", Weight: 1}, vx.Job{Scenario: "codec.sessionlimit", Weight: 2})
 		return jobs
 	})
+}
+
+// recConn records every message written to it and never delivers anything.
+type recConn struct {
+	writes [][]byte
+	closed chan struct{}
+}
+
+func (r *recConn) Read(b []byte) (int, error) {
+	if r.closed == nil {
+		r.closed = make(chan struct{})
+	}
+	<-r.closed
+	return 0, io.EOF
+}
+func (r *recConn) Write(b []byte) (int, error) {
+	r.writes = append(r.writes, append([]byte{}, b...))
+	return len(b), nil
+}
+func (r *recConn) Close() error {
+	if r.closed == nil {
+		r.closed = make(chan struct{})
+	}
+	select {
+	case <-r.closed:
+	default:
+		close(r.closed)
+	}
+	return nil
+}
+func (r *recConn) LocalAddr() net.Addr                 { return nil }
+func (r *recConn) RemoteAddr() net.Addr                { return nil }
+func (r *recConn) SetDeadline(t rtime.Time) error      { return nil }
+func (r *recConn) SetReadDeadline(t rtime.Time) error  { return nil }
+func (r *recConn) SetWriteDeadline(t rtime.Time) error { return nil }
+
+type sliceReader struct{ b []byte }
+
+func (s *sliceReader) Read(p []byte) (int, error) {
+	if len(s.b) == 0 {
+		return 0, io.EOF
+	}
+	n := copy(p, s.b)
+	s.b = s.b[n:]
+	return n, nil
 }
